@@ -255,6 +255,8 @@ int main(int argc, char *argv[])
 		}
 	}
 
-	exit(err);
+	/* The exit status is the number of tokens that failed, but only the
+	 * low 8 bits reach the parent: 256 failures must not look like 0. */
+	exit(err > 255 ? 255 : err);
 }
 
